@@ -249,6 +249,7 @@ func (d *duplexHTTPCall) makeRequest() {
 	// This runs concurrently with Write and CloseWrite. Read and CloseRead wait
 	// on d.responseReady, so we can't race with them.
 	defer close(d.responseReady)
+	defer verifYield("request.closeready") // deferred last, so it runs before the close
 
 	// Once we send a message to the server, they send a message back and
 	// establish the receive side of the stream.
